@@ -780,7 +780,13 @@ func (l *Loader) mergeResult(fetchItem *FetchItem, res *result, items []*astjson
 			// we don't consider it as an error. Note: it is not compliant with graphql spec.
 			if hasErrors {
 				if l.validateRequiredExternalFields && res.postProcessing.SelectResponseDataPath != nil {
-					taintedIndices = getTaintedIndices(res.taintInfo(fetchItem), res.errorPathRoot(), responseData, responseErrors)
+					// error paths index into the _entities array; a single entity fetch selects
+					// ["data","_entities","0"], so step back to the array for it
+					taintData := responseData
+					if p := res.postProcessing.SelectResponseDataPath; res.multi == nil && len(p) > 1 && p[len(p)-1] == "0" {
+						taintData = response.Get(p[:len(p)-1]...)
+					}
+					taintedIndices = getTaintedIndices(res.taintInfo(fetchItem), res.errorPathRoot(), taintData, responseErrors)
 				}
 				if len(taintedIndices) > 0 {
 					// Override errors with generic error about missing deps.
